@@ -59,6 +59,41 @@ def status_cmp(c, op, key, other_pred):
     return False
 
 
+def status_match(g, key, variant, hash_pred=None):
+    """guard-edge sets which TOGETHER mean `stored status of key (default NotApproved) == variant[(hash)]`, whatever the spelling:
+    one set of `status == Variant(..)` comparisons, or (pattern matching) the `status is Variant` dispatch edges plus, for
+    Approved(h), the comparison of the matched payload with the expected hash.  [] when no such guard exists."""
+    def want(b):
+        if variant_name(b) != variant:
+            return False
+        return hash_pred is None or (len(b) > 3 and b[3] and hash_pred(b[3][0]))
+    eqs = guard_sel(g, lambda c_: status_cmp(c_, 'eq', key, want))
+    if eqs:
+        return [eqs]
+    iss = guard_sel(g, lambda c_: c_[0] == 'is' and c_[1] == variant and status_of(c_[2], key))
+    if not iss:
+        return []
+    if hash_pred is None:
+        return [iss]
+
+    def matched_payload(t):
+        al = alts(t)
+        return bool(al) and all(a[0] == 'payload' and a[1] == variant and a[2] == 0 and status_of(a[3], key) for a in al)
+    pe = guard_sel(g, lambda c_: c_[0] == 'cmp' and c_[1] == 'eq' and ((matched_payload(c_[2]) and hash_pred(c_[3])) or (matched_payload(c_[3]) and hash_pred(c_[2]))))
+    return [iss, pe] if pe else []
+
+
+def mg_all(g, nodes, sets):
+    """must-guarded by every one of the edge sets (a conjunction of facts)"""
+    if not sets:
+        return False, None
+    for gs in sets:
+        ok, _, w = mg(g, nodes, (), edges(gs))
+        if not ok:
+            return False, w
+    return True, None
+
+
 def msg_struct(t):
     f = fields_of(core(t))
     if f is None or set(f) != {'source_chain', 'message_id', 'source_address', 'contract_address', 'payload_hash'}:
@@ -75,18 +110,25 @@ def ret_terms(g):
     return out
 
 
-def decided_by(g, true_guards):
-    """the entry returns statically true/false on every exit, `true` only through one of true_guards and `false` only through
-    another edge of the same tests (the query result IS the tested condition, whatever the spelling: ==, matches!, match, if)"""
+def decided_by(g, guard_sets):
+    """the entry returns statically true/false on every exit, `true` only through every one of the guard sets (their conjunction) and
+    `false` only through another edge of one of those tests (the query result IS the tested condition, whatever the spelling: ==,
+    matches!, match with a guard, if)"""
+    if guard_sets and not isinstance(guard_sets[0], list):
+        guard_sets = [guard_sets]
     trues = set(g.exit_sids(lambda v: v == ('b', True)))
     falses = set(g.exit_sids(lambda v: v == ('b', False)))
     unknown = set(g.exit_sids(lambda v: v not in (('b', True), ('b', False))))
-    if not true_guards or not trues or not falses or unknown:
+    if not guard_sets or not all(guard_sets) or not trues or not falses or unknown:
         return False
-    te = set(edges(true_guards))
-    nodes = set((cid, bb) for cid, bb, _ in te)
-    comp = [gd.edge for gd in guard_edges(g) if (gd.ctx.id, gd.bb) in nodes and gd.edge not in te]
-    return not (g.reach(None, (), list(te)) & trues) and not (g.reach(None, (), comp) & falses)
+    comp = []
+    for gs in guard_sets:
+        te = set(edges(gs))
+        if g.reach(None, (), list(te)) & trues:
+            return False
+        nodes = set((cid, bb) for cid, bb, _ in te)
+        comp += [gd.edge for gd in guard_edges(g) if (gd.ctx.id, gd.bb) in nodes and gd.edge not in te]
+    return not (g.reach(None, (), comp) & falses)
 
 
 def check(P, rep):
@@ -128,11 +170,10 @@ def check(P, rep):
             m = approved_hash(e.val)
             rep.check(m is not None and core(m) == elem, 'C02.R2', 'approve:value', 'stored value is Approved(keccak256(xdr(elem)))',
                       esite(g, e), fmt(e.val)[:300])
-        fresh = guard_sel(g, lambda c_: ws and approval_key(ws[0].key) and
-                          status_cmp(c_, 'eq', approval_key(ws[0].key), lambda b: variant_name(b) == 'NotApproved'))
+        fresh = status_match(g, approval_key(ws[0].key), 'NotApproved') if ws and approval_key(ws[0].key) else []
         rep.floor('approve_messages NotApproved guard', len(fresh), 1)
         for e in ws + pubs:
-            ok, _, w = mg(g, [e.node], (), edges(fresh)) if fresh else (False, None, None)
+            ok, w = mg_all(g, [e.node], fresh)
             rep.check(ok, 'C02.R2', 'approve:%s:fresh-guard' % e.kind,
                       'approval %s is must-guarded by status(key)-or-default == NotApproved on the same key' % ('write' if e.kind == 'sw' else 'event'),
                       esite(g, e), None, w)
@@ -154,13 +195,13 @@ def check(P, rep):
         rep.floor('validate_message status writes', len(ws), 1)
         an = auth_nodes(g, lambda s: core(s) == caller)
 
-        def full_hash(b):
-            m = approved_hash(b) if variant_name(b) == 'Approved' else None
-            if m is None:
+        def full_hash(h):
+            h = core(h)
+            if h[0] != 'keccak' or h[1][0] != 'xdr':
                 return False
-            f = msg_struct(m)
+            f = msg_struct(h[1][1])
             return f == {'source_chain': sc, 'message_id': mid, 'source_address': sa, 'contract_address': caller, 'payload_hash': ph}
-        match = guard_sel(g, lambda c_: status_cmp(c_, 'eq', key, full_hash))
+        match = status_match(g, key, 'Approved', full_hash)
         rep.floor('validate_message stored==Approved(hash(5 fields)) guard', len(match), 1)
         for e in ws:
             rep.check(approval_key(e.key) == key and variant_name(e.val) == 'Executed', 'C02.R3', 'validate:write-shape',
@@ -168,7 +209,7 @@ def check(P, rep):
         for e in ws + pubs:
             ok, _, w = mg(g, [e.node], an)
             rep.check(ok, 'C02.R3', 'validate:%s:auth' % e.kind, 'consume %s must-guarded by require_auth(caller)' % e.kind, esite(g, e), None, w)
-            ok, _, w = mg(g, [e.node], (), edges(match)) if match else (False, None, None)
+            ok, w = mg_all(g, [e.node], match)
             rep.check(ok, 'C02.R3', 'validate:%s:match' % e.kind,
                       'consume %s must-guarded by stored == Approved(keccak256(xdr(Message{.., contract_address: caller, ..})))' % e.kind,
                       esite(g, e), None, w)
@@ -210,10 +251,11 @@ def check(P, rep):
                         if f == {'source_chain': sc, 'message_id': mid, 'source_address': sa, 'contract_address': ca, 'payload_hash': ph}:
                             ok = True
 
-        def full_hash_q(b):
-            m = approved_hash(b) if variant_name(b) == 'Approved' else None
-            return m is not None and msg_struct(m) == {'source_chain': sc, 'message_id': mid, 'source_address': sa, 'contract_address': ca, 'payload_hash': ph}
-        if not ok and decided_by(g, guard_sel(g, lambda c_: status_cmp(c_, 'eq', (sc, mid), full_hash_q))):
+        def full_hash_q(h):
+            h = core(h)
+            return h[0] == 'keccak' and h[1][0] == 'xdr' and msg_struct(h[1][1]) == {'source_chain': sc, 'message_id': mid, 'source_address': sa,
+                                                                                      'contract_address': ca, 'payload_hash': ph}
+        if not ok and decided_by(g, status_match(g, (sc, mid), 'Approved', full_hash_q)):
             ok, rts = True, rts[:1]
         rep.check(ok and len(rts) == 1, 'C02.R4', 'is_message_approved', 'returns stored(key) == Approved(hash of the five parameters)', entry_id(g),
                   '; '.join(fmt(r) for r in rts)[:300])
@@ -231,8 +273,7 @@ def check(P, rep):
                 for x, y in ((a, b), (b, a)):
                     if status_of(x, (sc, mid)) and variant_name(y) == 'Executed':
                         ok = True
-        if not ok and decided_by(g, guard_sel(g, lambda c_: (c_[0] == 'is' and c_[1] == 'Executed' and status_of(c_[2], (sc, mid)))
-                                              or status_cmp(c_, 'eq', (sc, mid), lambda b: variant_name(b) == 'Executed'))):
+        if not ok and decided_by(g, status_match(g, (sc, mid), 'Executed')):
             ok, rts = True, rts[:1]
         rep.check(ok and len(rts) == 1, 'C02.R4', 'is_message_executed', 'returns stored(key) == Executed', entry_id(g),
                   '; '.join(fmt(r) for r in rts)[:300])
